@@ -36,6 +36,10 @@ CLAIMED = {
    text="Coq theorems over a pure-data model of the token-based context variable (closed under the global context, no axioms): after the exit event of a block (normal, exception, generator close = token reset) the value in force before the block is back, for any events in between; well-bracketed nesting of any depth and width returns to the initial state; for EVERY interleaving of the events of any number of execution contexts, what a context observes and where it ends are those of its own history run alone (induction over the interleaving); a new thread starts from the default, a task from a copy of its creator's value. Tie: real threads and asyncio tasks are driven event by event through enumerated / sampled schedules; get_current_dependency() after every event is compared with the model inside Coq and with an independent stack oracle; bare operators are compared with the explicit methods, unknown codes must fail.",
    note="Modelled, not verified: CPython contextvars / threading / asyncio semantics; the with-statement is performed by calling __enter__/__exit__ as the statement does. Schedules are bounded samples on the implementation side; the theorem covers all.",
    technique="Coq proof by induction over interleavings (non-interference) + trace correspondence on real threads / asyncio tasks", ref="5/C16"),
+ "C05": dict(
+   text="Coq theorems over the reals (libm functions as oracles instantiated by exp, ln, sqrt, x^k): exp, log (positive argument, else raise), sqrt, tanh = 1-2/(1+exp 2x) and the logistic function return exactly [f lo, f hi] = [min f, max f]; abs returns exactly [min|x|, max|x|] with both ends attained; X**k encloses x^k for every k >= 0 and every sign of X; for k < 0 it encloses 1/x^|k| when 0 is outside X and raises ZeroDivisionError when a pole lies in X; sin / cos PARTIAL (only intervals at least one period wide are theorems). Tie: bit-exact in-Coq run of the scalar and array case tables of sin/cos/tan (incl. argument reduction and masks), abs/sqrt/exp/log, tanh, sigmoid, __pow__, with libm values and float remainders as recorded tables + dense-sampling enclosure / exactness oracle + array-vs-scalar comparison.",
+   note="Partial: the sin/cos/tan case tables for intervals shorter than a period are not Coq theorems (differential run + dense sampling only). numpy libm and % are oracles; numpy.pi is the binary64 literal, theorems use the real PI. Known finding O28 (array form vs scalar form on the pi/2 grid).",
+   technique="Coq proofs of exactness / enclosure with libm as oracle + in-Coq differential run of the case tables + dense-sampling oracle", ref="5/C05"),
 }
 NA_REASON = "no check registered yet in this revision of the framework (work in progress, see DESIGN.md section 9)"
 base = json.load(open("/root/.vp/BASELINE.json"))
